@@ -428,6 +428,11 @@ def run_lens_direct(rec, case):
     kk = dict(a_ani=1.3, a_ani_sigma=0.0, sigma_v_sys_error=float(rng.uniform(0.01, 0.1)))
     ks = dict(mu_sne=19.2, sigma_sne=0.0, z_apparent_m_anchor=0.1)
     klos = [dict(mean=0.01, sigma=0.0)]
+    if int(case[2]) % 2 == 1:
+        # hand-written, MINIMAL dictionaries (optional keys left to their defaults): filling in a default must not write into the caller's dict
+        ks = dict(mu_sne=19.2, sigma_sne=0.0) if rng.random() < 0.5 else {}
+        kl = {k: v for k, v in kl.items() if k != "gamma_ppn"}
+        d["minimal_dicts"] = True
     try:
         L = LensLikelihood(gamma_pl_index=0 if scal else None, **kw)
     except Exception as e:
